@@ -672,6 +672,9 @@ class SoftwareSwitchBase (object):
         if no == in_port: continue
         real_send(port)
     elif out_port == OFPP_CONTROLLER:
+      # Buffer the frame as it is now -- the rest of the action list may go
+      # on rewriting this packet object.
+      if hasattr(packet, 'pack'): packet = ethernet(packet.pack())
       buffer_id = self._buffer_packet(packet, in_port)
       # Should we honor OFPPC_NO_PACKET_IN here?
       self.send_packet_in(in_port, buffer_id, packet, reason=OFPR_ACTION,
